@@ -105,6 +105,15 @@ def _stack(name):
     raise ValueError(name)
 
 
+def _copyable(o):
+    import copy as _copy
+    try:
+        _copy.deepcopy(o)
+        return True
+    except Exception:
+        return False
+
+
 class Pub:
     __slots__ = ("obj", "fp", "depth", "chain", "kind")
 
@@ -159,6 +168,18 @@ def execute(run, props):
                     continue
                 res.sim_steps += 1
                 res.nops += 1
+                try:
+                    import copy as _copy
+                    _copy.deepcopy(lib)
+                except Exception as e:  # noqa
+                    # "leaves the input library equal to its prior deep copy": a library produced by the
+                    # shipped parse stacks must have a deep copy, or no copy-mode middleware can work on it
+                    culprit = next((type(getattr(b, "error", None)).__name__ for b in lib.blocks
+                                    if isinstance(b, M.ParsingFailedBlock) and not _copyable(b)), "?")
+                    V("uncopyable", f"{type(e).__name__}/{culprit}", step,
+                      f"a library parsed with stack {op['stack']!r} cannot be deep-copied ({type(e).__name__}: {e}); "
+                      f"every copy-mode middleware and write_string raise on it")
+                    return res
                 libs.append(Pub(lib, 0, (op["stack"],), "library"))
                 bl = lib.blocks
                 if any(isinstance(b, M.DuplicateBlockKeyBlock) for b in bl):
